@@ -141,6 +141,73 @@ def run(case, ctx):
                     call(m, rb, pb)
             except Exception:  # noqa: BLE001
                 pass
+        # masks that are not C-contiguous: Fortran order, views into a larger array (bool and integer)
+        if refa.ndim >= 2 and i % 3 == 2:
+            pads = [(1, 2)] * refa.ndim
+            inner = tuple(slice(1, -2) for _ in range(refa.ndim))
+            variants = [(np.asfortranarray(rb), np.asfortranarray(pb)), (np.pad(rb, pads)[inner], np.pad(pb, pads)[inner]),
+                        (np.pad(rb.astype(bool), pads)[inner], np.pad(pb.astype(bool), pads)[inner])]
+            for rv, pv in variants:
+                for m in metrics:
+                    ctx.count("evaluations")
+                    ctx.count("C06.non_contiguous_calls")
+                    try:
+                        with np.errstate(all="ignore"):
+                            call(m, rv, pv)
+                    except Exception as e:  # noqa: BLE001
+                        if rv.any() and pv.any():
+                            ctx.viol("metric_raised_on_non_contiguous_masks", {"metric": m, "exc": repr(e)[:200], "shape": list(rv.shape), "dtype": str(rv.dtype), "c_contiguous": bool(rv.flags["C_CONTIGUOUS"]), "f_contiguous": bool(rv.flags["F_CONTIGUOUS"])},
+                                     features={"metric": m, "ndim": rv.ndim, "dtype": str(rv.dtype), "exc": type(e).__name__})
+        # reference and prediction in different memory layouts (values unchanged)
+        if refa.ndim >= 2 and i % 3 == 1:
+            rF, pF = np.asfortranarray(rb), np.ascontiguousarray(pb)
+            for m in ("DSC", "IOU", "RVD"):
+                try:
+                    with np.errstate(all="ignore"):
+                        call(m, rF, pF)
+                        call(m, np.asfortranarray(refa), np.ascontiguousarray(pred), ridx, pidx)
+                        call(m, refa.T, np.ascontiguousarray(pred.T), ridx, pidx)
+                    ctx.count("evaluations", 3)
+                    ctx.count("C06.mixed_layout_calls", 3)
+                except Exception:  # noqa: BLE001
+                    pass
+        # a long list of prediction labels spread over a wide range
+        if i % 7 == 3:
+            big_p = pred.astype(np.uint32)
+            big_r = refa.astype(np.uint32)
+            spread = {int(l): int(1000 + 7919 * l) for l in np.unique(big_p) if l != 0}
+            for l, v in spread.items():
+                big_p[pred == l] = v
+            present = list(spread.values())
+            n_lab = int(r.integers(12, 150))
+            cand = np.unique(np.concatenate([np.array(present, dtype=np.int64), r.integers(1, 2_000_000, size=n_lab)]))
+            lst = [int(x) for x in r.choice(cand, size=min(len(cand), n_lab), replace=False) if r.random() < 0.9 or True]
+            keep = set(int(x) for x in r.choice(present, size=max(1, len(present) // 2), replace=False)) if present else set()
+            lst = [x for x in lst if x not in set(present) or x in keep]
+            for m in ("DSC", "IOU", "RVD"):
+                try:
+                    with np.errstate(all="ignore"):
+                        call(m, big_r, big_p, ridx if ridx in rlabs else (rlabs[0] if rlabs else 1), lst)
+                    ctx.count("evaluations")
+                    ctx.count("C06.long_label_list_calls")
+                except Exception:  # noqa: BLE001
+                    pass
+        # a label-selected call repeated on the same reference array object after an in-place edit
+        if i % 2 == 1 and rlabs:
+            work = refa.copy()
+            lab = rlabs[0]
+            for m in ("DSC", "IOU"):
+                try:
+                    with np.errstate(all="ignore"):
+                        call(m, work, pred, lab, plabs[0] if plabs else lab)
+                        flat = work.reshape(-1)
+                        flat[int(r.integers(0, flat.size))] = lab
+                        flat[int(r.integers(0, flat.size))] = 0
+                        call(m, work, pred, lab, plabs[0] if plabs else lab)
+                    ctx.count("evaluations", 2)
+                    ctx.count("C06.inplace_rescored")
+                except Exception:  # noqa: BLE001
+                    pass
         # the same two array objects scored again after an in-place edit (each call is judged by the monitor)
         if i % 2 == 0 and pb.size > 2:
             for m in ("DSC", "IOU", "RVD"):
